@@ -1,14 +1,13 @@
 (** * ProgSem: straight-line real-arithmetic programs (Interval's [Prog.term]) — semantics,
     the logical-relation lemma all analyses are instances of, dyadic constants and the
-    verified interval evaluator used for translation validation. *)
+    dyadic constants. *)
 From Coq Require Import Reals List ZArith Lia Lra.
-From Interval Require Import Float.Basic Float.Primitive_ops Interval.Interval Interval.Float_full.
+From Interval Require Import Float.Basic Interval.Interval.
 From Interval Require Import Eval.Prog Eval.Tree Real.Xreal Eval.Eval.
 Import ListNotations.
 
-Module F := PrimitiveFloat.
-Module I := FloatIntervalFull F.
-Module A := IntervalAlgos I.
+(* The verified interval evaluators live in ProgSemBig.v (multi-precision backend).  An earlier version also instantiated Interval's
+   primitive-float backend here; it was removed because coqchk needs hours to re-check that functor application. *)
 
 (** ** The logical relation lemma over [eval_generic] (binary and ternary forms). *)
 
@@ -94,9 +93,6 @@ Qed.
 
 Definition dy_R (me : Z * Z) : R := (IZR (fst me) * powerRZ 2 (snd me))%R.
 
-Definition dy_I (prec : I.precision) (me : Z * Z) : I.type :=
-  I.mul prec (I.fromZ prec (fst me)) (I.power_int prec (I.fromZ prec 2) (snd me)).
-
 Lemma Xpower_int_2 e : Xpower_int (Xreal 2) e = Xreal (powerRZ 2 e).
 Proof.
   unfold Xpower_int, Xpower_int'. cbn.
@@ -104,54 +100,7 @@ Proof.
   destruct (is_zero_spec 2); [lra|reflexivity].
 Qed.
 
-Lemma dy_I_correct prec me : contains (I.convert (dy_I prec me)) (Xreal (dy_R me)).
-Proof.
-  unfold dy_I, dy_R.
-  change (Xreal (IZR (fst me) * powerRZ 2 (snd me))) with (Xmul (Xreal (IZR (fst me))) (Xreal (powerRZ 2 (snd me)))).
-  apply I.mul_correct.
-  - apply I.fromZ_correct.
-  - rewrite <- Xpower_int_2. apply I.power_int_correct. apply (I.fromZ_correct prec 2).
-Qed.
-
 Definition inputs_R (l : list (Z * Z)) : list R := map dy_R l.
-Definition inputs_I (prec : I.precision) (l : list (Z * Z)) : list I.type := map (dy_I prec) l.
-
-Lemma inputs_contains prec l : A.contains_all (inputs_I prec l) (inputs_R l).
-Proof.
-  split.
-  - unfold inputs_I, inputs_R. now rewrite !map_length.
-  - intros n. unfold inputs_I, inputs_R.
-    destruct (Nat.lt_ge_cases n (length l)) as [Hn|Hn].
-    + rewrite (nth_indep _ I.nai (dy_I prec (0,0)%Z)) by now rewrite map_length.
-      rewrite (nth_indep _ 0%R (dy_R (0,0)%Z)) by now rewrite map_length.
-      rewrite !map_nth. apply dy_I_correct.
-    + rewrite nth_overflow by now rewrite map_length.
-      now rewrite I.nai_correct.
-Qed.
-
-(** ** Verified interval evaluation at a dyadic point *)
-
-Definition evalI (prec : I.precision) (P : list term) (inp : list (Z * Z)) : list I.type :=
-  A.BndValuator.eval prec P (inputs_I prec inp).
-
-Theorem evalI_correct prec P inp k :
-  contains (I.convert (nth k (evalI prec P inp) I.nai)) (out_ext P (inputs_R inp) k).
-Proof. apply A.BndValuator.eval_correct, inputs_contains. Qed.
-
-(** a non-NaI enclosure proves well-definedness *)
-Definition is_bnd (i : I.type) : bool :=
-  match i with Float.Ibnd _ _ => true | _ => false end.
-
-Lemma is_bnd_not_nan i x : is_bnd i = true -> contains (I.convert i) x -> x <> Xnan.
-Proof.
-  destruct i as [|l u]; [discriminate|]. intros _ H Hx. subst x.
-  unfold I.convert in H. destruct (I.F.valid_lb l && I.F.valid_ub u)%bool; exact H.
-Qed.
-
-Theorem evalI_wf prec P inp k :
-  is_bnd (nth k (evalI prec P inp) I.nai) = true -> wf P (inputs_R inp) k.
-Proof. intros H. eapply is_bnd_not_nan; [exact H|apply evalI_correct]. Qed.
-
 (** output selection: the [j]-th of [n] outputs (outputs are the last [n] instructions) *)
 Definition out_idx (nouts j : nat) : nat := nouts - 1 - j.
 
